@@ -398,6 +398,14 @@ func (e *Exec) importedPackages(env *Env, name string) []*types.Package {
 			out = append(out, p)
 		}
 	}
+	if len(out) == 0 {
+		// a repository package named like that (contracts may name types of packages the code does not import)
+		for _, p := range e.W.prog.AllPackages() {
+			if p.Pkg.Name() == name && strings.HasPrefix(p.Pkg.Path(), modulePath+"/") {
+				out = append(out, p.Pkg)
+			}
+		}
+	}
 	return out
 }
 
@@ -709,6 +717,9 @@ func (e *Exec) evalQuant(env *Env, q string, fl *ast.FuncLit) (Val, error) {
 			if env.old != nil {
 				ienv.old = env.old.clone()
 			}
+			// names are resolved now (loop-carried values, locals and call results change later)
+			e.snapshotNames(env, ienv, ret.Results[0], map[string]bool{})
+			ienv.frame = nil
 			var vname string
 			var vtype types.Type
 			for _, fld := range fl.Type.Params.List {
@@ -810,6 +821,16 @@ func (e *Exec) evalCall(env *Env, x *ast.CallExpr) (Val, error) {
 				return Val{T: tInt, Term: app("str.len", v.Term)}, nil
 			}
 			return Val{}, fmt.Errorf("len of %s", v.T)
+		case "fst", "snd", "third":
+			v, err := e.eval(env, x.Args[0])
+			if err != nil {
+				return Val{}, err
+			}
+			i := map[string]int{"fst": 0, "snd": 1, "third": 2}[id.Name]
+			if i >= len(v.Tup) {
+				return Val{}, fmt.Errorf("%s: not a tuple with enough components", id.Name)
+			}
+			return v.Tup[i], nil
 		case "cur":
 			// cur(name): the current value of a local variable (not the parameter's initial value)
 			n := exprString(x.Args[0])
@@ -1001,7 +1022,12 @@ func (e *Exec) evalCall(env *Env, x *ast.CallExpr) (Val, error) {
 		if id, ok := sel.X.(*ast.Ident); ok {
 			if _, isVar := env.vars[id.Name]; !isVar && env.lets[id.Name] == nil {
 				if pkg := e.importedPackage(env, id.Name); pkg != nil {
-					// pkg.Func(args): spec function by bare name
+					// pkg.Func(args): a repository function evaluated as a pure function, or a spec function by bare name
+					if fobj, ok := e.lookupImported(env, id.Name, sel.Sel.Name).(*types.Func); ok {
+						if sf := e.W.prog.FuncValue(fobj); sf != nil && sf.Blocks != nil && e.W.inRepo(sf) {
+							return e.evalPureCall(env, sf, x.Args)
+						}
+					}
 					if h, ok := specFuncs[sel.Sel.Name]; ok {
 						var args []Val
 						for _, a := range x.Args {
@@ -1031,6 +1057,26 @@ func (e *Exec) evalCall(env *Env, x *ast.CallExpr) (Val, error) {
 		}
 		if h, ok := observers[sel.Sel.Name]; ok {
 			return h(e, env.cur, recv, args)
+		}
+		// a repository method with a `pure` contract: the same function symbol the executor uses for calls to it
+		if obj, _, _ := types.LookupFieldOrMethod(recv.T, true, nil, sel.Sel.Name); obj != nil {
+			if fobj, ok := obj.(*types.Func); ok {
+				if sf := e.W.prog.FuncValue(fobj); sf != nil {
+					if pc := e.W.contractFor(sf); pc != nil && pc.Pure {
+						rt := methodResultType(recv.T, sel.Sel.Name)
+						return e.uninterpInline("pure_"+cleanSym(funcKeyStr(pc.Pkg+"."+pc.Name)), append([]Val{recv}, args...), rt), nil
+					}
+				}
+			}
+		}
+		if obj := lookupUnexportedMethod(e, recv.T, sel.Sel.Name); obj != nil {
+			if pc := e.W.contractFor(obj); pc != nil && pc.Pure {
+				var rt types.Type = obj.Signature.Results()
+				if obj.Signature.Results().Len() == 1 {
+					rt = obj.Signature.Results().At(0).Type()
+				}
+				return e.uninterpInline("pure_"+cleanSym(funcKeyStr(pc.Pkg+"."+pc.Name)), append([]Val{recv}, args...), rt), nil
+			}
 		}
 		// method without an assumed contract: the same uninterpreted function the executor uses
 		if rt := methodResultType(recv.T, sel.Sel.Name); rt != nil {
@@ -1090,8 +1136,16 @@ func (e *Exec) deepEqual(st *State, a, b Val) Term {
 // evalPureCall evaluates a call to a side-effect free repository function inside a contract by
 // running its body symbolically on a scratch copy of the current state.
 func (e *Exec) evalPureCall(env *Env, fn *ssa.Function, argExprs []ast.Expr) (Val, error) {
+	nitems0 := len(e.items)
 	if e.inQuant > 0 {
-		return Val{}, fmt.Errorf("call of %s under a quantifier", fn.Name())
+		// allowed only for straight-line helpers: nothing may be allocated or declared under the quantifier
+		defer func() {
+			for _, it := range e.items[nitems0:] {
+				if it.Kind == ItemDecl && !strings.HasPrefix(it.Text, "(declare-fun") && !strings.HasSuffix(it.Sym, "!0") {
+					panic(fmt.Sprintf("fatal: call of %s under a quantifier declares %s", fn.Name(), it.Sym))
+				}
+			}
+		}()
 	}
 	sig := fn.Signature
 	var args []Val
@@ -1121,4 +1175,63 @@ func (e *Exec) evalPureCall(env *Env, fn *ssa.Function, argExprs []ast.Expr) (Va
 	e.wlog = e.wlog[:nlog]
 	e.discovery--
 	return e.packResult(resT, rr.rets), nil
+}
+
+// lookupUnexportedMethod finds a (possibly unexported) method of a repository type by name.
+func lookupUnexportedMethod(e *Exec, t types.Type, name string) *ssa.Function {
+	for _, tt := range []types.Type{t, types.NewPointer(t)} {
+		ms := e.W.prog.MethodSets.MethodSet(tt)
+		for i := 0; i < ms.Len(); i++ {
+			if ms.At(i).Obj().Name() == name {
+				return e.W.prog.MethodValue(ms.At(i))
+			}
+		}
+	}
+	return nil
+}
+
+// snapshotNames resolves every free identifier of ex in env and stores the value in dst.vars, so that a
+// later re-evaluation of ex sees the values of now.
+func (e *Exec) snapshotNames(env, dst *Env, ex ast.Expr, seen map[string]bool) {
+	ast.Inspect(ex, func(n ast.Node) bool {
+		switch x := n.(type) {
+		case *ast.SelectorExpr:
+			// the selector's field name is not a free identifier
+			e.snapshotNames(env, dst, x.X, seen)
+			return false
+		case *ast.Ident:
+			name := x.Name
+			if seen[name] {
+				return true
+			}
+			seen[name] = true
+			if _, ok := dst.vars[name]; ok {
+				return true
+			}
+			switch name {
+			case "true", "false", "nil":
+				return true
+			}
+			if le, ok := env.lets[name]; ok {
+				e.snapshotNames(env, dst, le, seen)
+				return true
+			}
+			if env.frame == nil {
+				return true
+			}
+			saved := e.inQuant
+			e.inQuant = 0
+			if v, ok := e.lookupSSAName(env.frame, name); ok {
+				dst.vars[name] = v
+			} else if env.frame == e.rootFrame {
+				if v, ok := e.localNames[name]; ok {
+					dst.vars[name] = v
+				} else if a, ok := e.localAddrs[name]; ok {
+					dst.vars[name] = e.load(env.cur, e.addrOf(a))
+				}
+			}
+			e.inQuant = saved
+		}
+		return true
+	})
 }
